@@ -424,6 +424,8 @@ row(L + "get_semantic_tokens|assert|Overflow:Sub", "INV-ENUMERATE",
     "line_number comes from enumerate() and prev_line_number is an earlier line_number")
 row(L + "get_semantic_tokens|assert|Overflow:Sub#2", "INV-ORDERED-RANGES",
     "token ranges of one line are ordered (C13 monotone cursor) and prev_token_start is an earlier start")
+row(L + "get_semantic_tokens|assert|Overflow:Sub#3", "INV-ORDERED-RANGES",
+    "token_end - token_start with range.start <= range.end (C13) and a monotone byte->UTF-16 column conversion")
 row(L + "main_loop|unwrap|unwrap|of:to_value", "PLAIN-DATA", "serialising SemanticTokens (integers only) to JSON cannot fail")
 
 # ---- Web adapter (C19)
